@@ -170,4 +170,107 @@ theorem loop_tail_not_stopped (r k : Nat) (s : St K N) (acc : List (Rec K N)) :
       · right; exact h
 
 end loopind
+/-! ### metric projections, normal cones, the Boyle–Dykstra potential, iterates -/
+
+/-- a map is the metric projection onto the set `A` (characterised by membership + variational inequality) -/
+def IsProj (A : Vec K N → Prop) (P : Vec K N → Vec K N) : Prop :=
+  ∀ u, A (P u) ∧ ∀ z, A z → ip1 (u.sub (P u)) (z.sub (P u)) ≤ 0
+
+
+/-- `p` is an outward normal of the set `A` at `y` -/
+def NormalAt (A : Vec K N → Prop) (y p : Vec K N) : Prop := ∀ w, A w → ip1 p (w.sub y) ≤ 0
+
+/-- Boyle–Dykstra potential of a state w.r.t. a point `z`: `‖x − z‖² + 2⟪p, y − z⟫ + 2⟪q, x − z⟫`
+(`y` = the point at which the correction `p` is normal) -/
+def lyap (z y : Vec K N) (s : St K N) : K :=
+  sqd1 s.x z + 2 * ip1 s.p (y.sub z) + 2 * ip1 s.q (s.x.sub z)
+
+/-- states after `k` sweeps, together with the last intermediate point `y` -/
+def iterSY (P1 P2 : Nat → Vec K N → Vec K N) (x0 : Vec K N) : Nat → St K N × Vec K N
+  | 0 => (⟨x0, Vec.zero, Vec.zero⟩, x0)
+  | k + 1 => sweep (P1 k) (P2 k) (iterSY P1 P2 x0 k).1
+
+theorem sweep_normal (A B : Vec K N → Prop) (P1 P2 : Vec K N → Vec K N) (h1 : IsProj A P1) (h2 : IsProj B P2)
+    (s : St K N) :
+    A (sweep P1 P2 s).2 ∧ B (sweep P1 P2 s).1.x ∧
+      NormalAt A (sweep P1 P2 s).2 (sweep P1 P2 s).1.p ∧ NormalAt B (sweep P1 P2 s).1.x (sweep P1 P2 s).1.q :=
+  ⟨(h1 _).1, (h2 _).1, fun w hw => (h1 _).2 w hw, fun w hw => (h2 _).2 w hw⟩
+
+/-- one-sweep identity behind Boyle–Dykstra: potential before = potential after + stopping value + two non-negative terms -/
+theorem lyap_identity (P1 P2 : Vec K N → Vec K N) (s : St K N) (y z : Vec K N) :
+    lyap z y s = lyap z (sweep P1 P2 s).2 (sweep P1 P2 s).1 + errVal s (sweep P1 P2 s).1
+      - 2 * ip1 s.p ((sweep P1 P2 s).2.sub y) - 2 * ip1 s.q ((sweep P1 P2 s).1.x.sub s.x) := by
+  simp only [lyap, sqd1_eq, ip1, errVal_eq, sweep, sub_get, add_get, Finset.mul_sum, ← Finset.sum_add_distrib,
+    ← Finset.sum_sub_distrib]
+  apply Finset.sum_congr rfl; intro i _; ring
+
+theorem lyap_ge (A B : Vec K N → Prop) (z y : Vec K N) (s : St K N) (hzA : A z) (hzB : B z)
+    (hp : NormalAt A y s.p) (hq : NormalAt B s.x s.q) : sqd1 s.x z ≤ lyap z y s := by
+  have h1 := hp z hzA
+  have h2 := hq z hzB
+  have e1 : ip1 s.p (y.sub z) = - ip1 s.p (z.sub y) := by
+    simp only [ip1, sub_get, ← Finset.sum_neg_distrib]; apply Finset.sum_congr rfl; intro i _; ring
+  have e2 : ip1 s.q (s.x.sub z) = - ip1 s.q (z.sub s.x) := by
+    simp only [ip1, sub_get, ← Finset.sum_neg_distrib]; apply Finset.sum_congr rfl; intro i _; ring
+  unfold lyap; rw [e1, e2]; linarith
+
+/-- the stopping value of sweep `j` (between the states after `j` and `j+1` sweeps) -/
+def errAt (P1 P2 : Nat → Vec K N → Vec K N) (x0 : Vec K N) (j : Nat) : K :=
+  errVal (iterSY P1 P2 x0 j).1 (iterSY P1 P2 x0 (j + 1)).1
+
+theorem ip1_zero_left (v : Vec K N) : ip1 (Vec.zero : Vec K N) v = 0 := by simp [ip1]
+
+/-- `error_value` of sweep `j` as recorded (None for sweep 0) -/
+def errOpt (P1 P2 : Nat → Vec K N → Vec K N) (x0 : Vec K N) (j : Nat) : Option K :=
+  if 1 ≤ j then some (errAt P1 P2 x0 j) else none
+
+theorem recOf_iter_err (P1 P2 : Nat → Vec K N → Vec K N) (x0 : Vec K N) (j : Nat) :
+    (recOf P1 P2 j (iterSY P1 P2 x0 j).1).err = errOpt P1 P2 x0 j := rfl
+
+theorem loop_iter (eps : K) (P1 P2 : Nat → Vec K N → Vec K N) (x0 : Vec K N) (r k : Nat) (acc : List (Rec K N)) :
+    k ≤ (loop eps P1 P2 (r + 1) k (iterSY P1 P2 x0 k).1 acc).k ∧
+    (loop eps P1 P2 (r + 1) k (iterSY P1 P2 x0 k).1 acc).k ≤ k + r ∧
+    (loop eps P1 P2 (r + 1) k (iterSY P1 P2 x0 k).1 acc).x
+      = (iterSY P1 P2 x0 ((loop eps P1 P2 (r + 1) k (iterSY P1 P2 x0 k).1 acc).k + 1)).1.x ∧
+    (∀ j, k ≤ j → j < (loop eps P1 P2 (r + 1) k (iterSY P1 P2 x0 k).1 acc).k → stopB eps (errOpt P1 P2 x0 j) = false) ∧
+    (stopB eps (errOpt P1 P2 x0 (loop eps P1 P2 (r + 1) k (iterSY P1 P2 x0 k).1 acc).k) = true ∨
+      (loop eps P1 P2 (r + 1) k (iterSY P1 P2 x0 k).1 acc).k = k + r) := by
+  induction r generalizing k acc with
+  | zero =>
+    rw [loop_succ]
+    simp only [BEq.rfl, Bool.or_true, if_true]
+    exact ⟨le_refl _, le_refl _, rfl, fun j h1 h2 => absurd h2 (by omega), Or.inr rfl⟩
+  | succ r ih =>
+    rw [loop_succ]
+    have h0 : (r + 1 == 0) = false := by simp
+    by_cases hc : (stopB eps (recOf P1 P2 k (iterSY P1 P2 x0 k).1).err || r + 1 == 0) = true
+    · rw [if_pos hc]
+      rw [h0, Bool.or_false, recOf_iter_err] at hc
+      dsimp only
+      exact ⟨le_refl _, Nat.le_add_right _ _, rfl, fun j h1 h2 => absurd h2 (by omega), Or.inl hc⟩
+    · rw [if_neg hc]
+      rw [h0, Bool.or_false, recOf_iter_err] at hc
+      have e : (sweep (P1 k) (P2 k) (iterSY P1 P2 x0 k).1).1 = (iterSY P1 P2 x0 (k + 1)).1 := rfl
+      rw [e]
+      obtain ⟨a1, a2, a3, a4, a5⟩ := ih (k + 1) (recOf P1 P2 k (iterSY P1 P2 x0 k).1 :: acc)
+      refine ⟨by omega, by omega, a3, ?_, ?_⟩
+      · intro j hj1 hj2
+        by_cases hjk : j = k
+        · subst hjk; simpa using hc
+        · exact a4 j (by omega) hj2
+      · rcases a5 with h | h
+        · exact Or.inl h
+        · exact Or.inr (by omega)
+
+/-- `stop at sweep j` as coded: `j ≥ 1` and the stopping value is `< eps` -/
+def StopAt (eps : K) (P1 P2 : Nat → Vec K N → Vec K N) (x0 : Vec K N) (j : Nat) : Prop :=
+  1 ≤ j ∧ errAt P1 P2 x0 j < eps
+
+theorem stopB_errOpt (eps : K) (P1 P2 : Nat → Vec K N → Vec K N) (x0 : Vec K N) (j : Nat) :
+    stopB eps (errOpt P1 P2 x0 j) = true ↔ StopAt eps P1 P2 x0 j := by
+  unfold errOpt StopAt
+  split
+  · rename_i h; simp [stopB, h]
+  · rename_i h; simp [stopB, h]
+
 end QM.C05
